@@ -28,7 +28,7 @@ CHECKS = {
          "weak edges are only generated when the strong occurrence is complete earlier (documented precondition); compact_list_indent, empty_as_braces=false and indent_step=1 are outside the domain (C13 findings); one open finding (anchor lost on a block-scalar string - its repair is blocked by a test that pins the anchor-less output) is excluded by signature",
          "DESIGN.md section 3 C14; notes/report-C14.md"),
  "C15": ("exploration",
-         "stateful property-based testing: exhaustive call histories up to length 3 (4 over a core alphabet) + random histories to length 12 over 52 call kinds, every history on a fresh thread; oracle = each call's observation equals the same call alone on a fresh thread",
+         "stateful property-based testing: exhaustive call histories up to length 3 (4 over a core alphabet) + random histories to length 12 over 53 call kinds, every history on a fresh thread; oracle = each call's observation equals the same call alone on a fresh thread",
          "Histories over 24 base calls (successful / failing mid-anchored-node / failing inside an anchor context / budget and alias limit at the exact limit / shared RcAnchors / missing- and unknown-field errors / root static error / caught panic / duplicate key / multi-document / reader / abandoned and exhausted iterators / serialisation with anchors and into a failing writer / validated parse) and 25 nested calls (a parse inside the Deserialize impl of a field of an outer document with anchors before / around / inside): every observation (variant, locations, rendered message, pointer classes - never addresses) equals the isolated one; isolated observations agree across two fresh threads and contain documented constants. All 120099 histories of length <= 3 and 614656 of length 4 over a core alphabet are enumerated.",
          "observations are compared as strings built from variant, locations, messages and pointer-equality classes; Debug of validation errors (HashMap order) is not used",
          "DESIGN.md section 3 C15; notes/report-C15.md"),
